@@ -11,6 +11,18 @@ uint64_t w_gget(uint64_t q, uint64_t off, uint64_t bits, uint8_t* pdu)
     return Avtp_GetField(t, 1, pdu, 0);
 }
 
+/* two reads with a buffer change in between, in one caller (see the generated get2 thunks) */
+uint64_t w_gget2(uint64_t q, uint64_t off, uint64_t bits, uint8_t* pdu, uint64_t byteidx, uint64_t xorv, uint8_t* out8)
+{
+    Avtp_FieldDescriptor_t t[1];
+    t[0].quadlet = (uint8_t)q; t[0].offset = (uint8_t)off; t[0].bits = (uint8_t)bits;
+    uint64_t a = Avtp_GetField(t, 1, pdu, 0);
+    pdu[byteidx] ^= (uint8_t)xorv;
+    uint64_t b = Avtp_GetField(t, 1, pdu, 0);
+    for (int i = 0; i < 8; i++) out8[i] = (uint8_t)(b >> (8 * (7 - i)));
+    return a;
+}
+
 void w_gset(uint64_t q, uint64_t off, uint64_t bits, uint8_t* pdu, uint64_t v)
 {
     Avtp_FieldDescriptor_t t[1];
